@@ -25,11 +25,22 @@ pub fn floats_exact(v: &Value) -> bool {
 }
 
 fn print_entry_points(out: &mut Out, v: &Value, case: &str) -> Option<Vec<u8>> {
-    let a = lexpr::to_string(v).ok()?;
-    let b = lexpr::to_vec(v).ok()?;
-    let mut c = Vec::new();
-    lexpr::to_writer(&mut c, v).ok()?;
-    let d = format!("{}", v);
+    // a panicking printer is a finding about this value, not a crash of the harness
+    let printed = std::panic::catch_unwind(std::panic::AssertUnwindSafe(|| {
+        let a = lexpr::to_string(v).ok()?;
+        let b = lexpr::to_vec(v).ok()?;
+        let mut c = Vec::new();
+        lexpr::to_writer(&mut c, v).ok()?;
+        let d = format!("{}", v);
+        Some((a, b, c, d))
+    }));
+    let (a, b, c, d) = match printed {
+        Ok(x) => x?,
+        Err(_) => {
+            out.fail("print-panic", "the printer panicked".into(), case.to_string(), json!({}));
+            return Some(b"<printer panicked>".to_vec());
+        }
+    };
     out.oracle_checks += 1;
     if a.as_bytes() != &b[..] || b != c || d.as_bytes() != &b[..] {
         out.fail("print-entry-points", "to_string / to_vec / to_writer / Display disagree".into(), case.to_string(), json!({"to_string": a, "display": d}));
